@@ -352,7 +352,7 @@ Qed.
 Theorem gram_type_Fr : forall f, Fr Km (g_type (gram f)).
 Proof.
   apply (gram_type_R (fun A => @Fr Km A)); intros.
-  - apply Fr_ret. - apply Fr_nofuel.
+  - apply Fr_ret. - apply Fr_fail. - apply Fr_nofuel.
   - apply Fr_bind; auto. - apply Fr_prepend; auto. - apply Fr_rae; auto. - apply Fr_opt; auto.
   - apply Fr_exp_token. - apply Fr_take_until. - apply Fr_alt; auto.
   - apply Fr_sep_tokens. - apply Fr_sep_list; auto using Km_add_diag.
